@@ -397,7 +397,10 @@ Definition fan_trace (sh : lshape) (log : list event) : list (nat * event) := fl
 Definition leaf_log (i : nat) (tr : list (nat * event)) : list event :=
   map snd (filter (fun p => Nat.eqb (fst p) i) tr).
 Definition leaf_logs (sh : lshape) (log : list event) : list (list event) :=
-  map (fun i => leaf_log i (fan_trace sh log)) (seq 0 (nleaves sh)).
+  match sh with
+  | Leaf => [log]   (* = the general case below ([leaf_logs_all]); spelled out to keep very long logs cheap *)
+  | _ => map (fun i => leaf_log i (fan_trace sh log)) (seq 0 (nleaves sh))
+  end.
 
 (** * A scripted source over the universe: truthful except at scripted request indices. *)
 (** [FS y dh dw]: answer as for block [y] with height/chainwork claims shifted; [FF dh dw]: answer for
